@@ -721,6 +721,7 @@ type item struct {
 
 func main() {
 	r := ev.Start("C18", "exploration")
+	ev.BigHeap(1 << 30)
 	thorough := r.Thorough()
 	c := &checker{r: r, combos: allCombos(), limits: map[string]int64{}, counters: map[string]int64{}, nonV2Req: map[string]int64{}}
 
